@@ -7,72 +7,6 @@ import (
 	"mgcheck/core"
 )
 
-// c04AnalyzeOrder: in Analyzer.Analyze the clause given to CheckRule is the loop's clause variable after
-// RewriteClause assigned it, and the same variable is appended to rules.
-func c04AnalyzeOrder(c *core.Ctx) {
-	f := c.MustFunc(rC04Ord, "analysis", "Analyzer.Analyze")
-	if f == nil {
-		return
-	}
-	info := f.Pkg.TypesInfo
-	var loop *ast.RangeStmt
-	ast.Inspect(f.Decl.Body, func(n ast.Node) bool {
-		if rs, ok := n.(*ast.RangeStmt); ok && core.ContainsCall(info, rs.Body, false, "analysis.Analyzer.CheckRule") {
-			loop = rs
-		}
-		return true
-	})
-	if loop == nil {
-		c.Unres(rC04Ord, f.Name, f.Decl.Pos(), "no loop calling CheckRule found in Analyze")
-		return
-	}
-	g := core.BuildCFG(c.Prog.Fset, info, loop.Body)
-	rewrites := g.Find(func(n ast.Node) bool { return core.ContainsCall(info, n, false, "analysis.RewriteClause") })
-	checks := g.Find(func(n ast.Node) bool { return core.ContainsCall(info, n, false, "analysis.Analyzer.CheckRule") })
-	var problems []string
-	if len(rewrites) != 1 || len(checks) != 1 {
-		problems = append(problems, "expected one RewriteClause and one CheckRule call per clause")
-	} else {
-		if !g.RefDominates(rewrites[0], checks[0]) {
-			problems = append(problems, "CheckRule can run on a clause that was not rewritten")
-		}
-		as, ok := rewrites[0].Node().(*ast.AssignStmt)
-		var v *ast.Ident
-		if ok && len(as.Lhs) == 1 {
-			v, _ = as.Lhs[0].(*ast.Ident)
-		}
-		if v == nil {
-			problems = append(problems, "the rewritten clause is not stored in a variable")
-		} else {
-			call := core.FindCalls(info, checks[0].Node(), false, "analysis.Analyzer.CheckRule")[0]
-			if id, ok := ast.Unparen(call.Args[0]).(*ast.Ident); !ok || info.Uses[id] != info.Uses[v] && info.Uses[id] != info.Defs[v] {
-				problems = append(problems, "CheckRule is given "+core.Src(c.Prog.Fset, call.Args[0])+", not the rewritten clause "+v.Name)
-			}
-			// the clause appended to rules is the same variable, and it is not rewritten again after the check
-			appended := false
-			ast.Inspect(loop.Body, func(n ast.Node) bool {
-				call, ok := n.(*ast.CallExpr)
-				if !ok {
-					return true
-				}
-				if id, ok := call.Fun.(*ast.Ident); ok && id.Name == "append" && len(call.Args) == 2 && strings.HasPrefix(core.Src(c.Prog.Fset, call.Args[0]), "rules") {
-					if a, ok := ast.Unparen(call.Args[1]).(*ast.Ident); ok && (info.Uses[a] == info.Uses[v] || info.Uses[a] == info.Defs[v]) {
-						appended = true
-					}
-				}
-				return true
-			})
-			if !appended {
-				problems = append(problems, "the clause appended to the program's rules is not the checked clause")
-			}
-			if _, again := g.Reach(checks, func(n ast.Node) bool { return core.ContainsCall(info, n, false, "analysis.RewriteClause") }, nil, false); again {
-				problems = append(problems, "the clause is rewritten again after it was checked")
-			}
-		}
-	}
-	c.Check(len(problems) == 0, rC04Ord, f.Name, loop.Pos(), "rewrite, then check, then keep the same clause", strings.Join(problems, "; "))
-}
-
 // c04Reducer: no forced assertion on the reducer's argument in EvalReduceFn.
 func c04Reducer(c *core.Ctx) {
 	f := c.MustFunc(rC04Red, "functional", "EvalReduceFn")
